@@ -219,55 +219,62 @@ def streamsIdx (args : List Bytes) : Option (List Nat) :=
       if keyCount = 0 then none
       else some ((List.range keyCount).map (· + keyStart))
 
-/-- the `for i := 1; i < len(args); i++` loop of `sortExtractor`; `i` is the
-    index of the head of the remaining arguments. `none` = `return nil`. -/
-def sortLoop (i : Nat) (rem : List Bytes) (keys : List Nat) (hasStore : Bool) :
-    Option (List Nat × Bool) :=
-  match rem with
-  | [] => some (keys, hasStore)
-  | a :: rest =>
-    if eqFold a wStore then
+def wLimit : Bytes := [108,105,109,105,116]
+
+/-- `isSortOptionWord` -/
+def isSortOptionWord (a : Bytes) : Bool :=
+  eqFold a wLimit || eqFold a wStore || eqFold a wBy || eqFold a wGet
+
+/-- the `for i := 1; i < len(args); i++` loop of `sortExtractor` (as repaired in
+    session 5, finding C18-F1): `skip` = how many of the next arguments the
+    body's `i += 2` / `i++` steps over, `i` = index of the head of the remaining
+    arguments, `dst` = the last STORE destination seen. Outer `none` = `return nil`. -/
+def sortLoop : Nat → Nat → List Bytes → Option Nat → Option (Option Nat)
+  | _, _, [], dst => some dst
+  | skip + 1, i, _ :: rest, dst => sortLoop skip (i + 1) rest dst
+  | 0, i, a :: rest, dst =>
+    if eqFold a wLimit then sortLoop 2 (i + 1) rest dst
+    else if eqFold a wStore then
       match rest with
       | [] => none
-      | _ :: rest' => sortLoop (i + 2) rest' (keys ++ [i + 1]) true
+      | d :: _ => if isSortOptionWord d then none else sortLoop 1 (i + 1) rest (some (i + 1))
     else if eqFold a wBy then
       match rest with
       | [] => none
-      | p :: rest' =>
-        if !eqFold p wHash && !eqFold p wNosort then none
-        else sortLoop (i + 2) rest' keys hasStore
+      | p :: _ => if !eqFold p wHash && !eqFold p wNosort then none else sortLoop 1 (i + 1) rest dst
     else if eqFold a wGet then
       match rest with
       | [] => none
-      | p :: rest' =>
-        if !eqFold p wHash then none else sortLoop (i + 2) rest' keys hasStore
-    else sortLoop (i + 1) rest keys hasStore
-termination_by rem.length
+      | p :: _ => if !eqFold p wHash then none else sortLoop 1 (i + 1) rest dst
+    else sortLoop 0 (i + 1) rest dst
 
-/-- `sortExtractor` -/
+/-- `sortExtractor`: the sorted key and the LAST STORE destination -/
 def sortIdx (args : List Bytes) : Option (List Nat) :=
   match args with
   | [] => none
   | _ :: rest =>
-    match sortLoop 1 rest [0] false with
-    | some (keys, true) => some keys
+    match sortLoop 0 1 rest none with
+    | some (some d) => some [0, d]
     | _ => none
 
-/-- the `for i := 1; i < len(args)-1; i++` loop of `geoRadiusStoreExtractor`;
-    `i` is the index of the head; the last argument is never examined. -/
-def geoLoop (i : Nat) : List Bytes → Option Nat
-  | [] => none
-  | [_] => none
-  | a :: b :: rest =>
-    if eqFold a wStore || eqFold a wStoredist then some (i + 1) else geoLoop (i + 1) (b :: rest)
+/-- the `for i := 4; i < len(args); i++` loop of `geoRadiusStoreExtractor` (as
+    repaired in session 5, finding C18-F1): a store option with a following
+    argument records that argument's position and steps over it; the last wins. -/
+def geoLoop : Nat → Nat → List Bytes → Option Nat → Option Nat
+  | _, _, [], dst => dst
+  | skip + 1, i, _ :: rest, dst => geoLoop skip (i + 1) rest dst
+  | 0, i, a :: rest, dst =>
+    if (eqFold a wStore || eqFold a wStoredist) && !rest.isEmpty then
+      geoLoop 1 (i + 1) rest (some (i + 1))
+    else geoLoop 0 (i + 1) rest dst
 
-/-- `geoRadiusStoreExtractor` -/
+/-- `geoRadiusStoreExtractor`: option words are looked for from args[4] on -/
 def geoIdx (args : List Bytes) : Option (List Nat) :=
   match args with
   | [] => none
-  | _ :: rest =>
-    match geoLoop 1 rest with
-    | some k => some [0, k]
+  | _ :: _ =>
+    match geoLoop 0 4 (args.drop 4) none with
+    | some d => some [0, d]
     | none => none
 
 def runExtractor : Gen.KeyExtractor → List Bytes → Option (List Nat)
